@@ -35,7 +35,8 @@ impl Panicked {
     pub fn msg_class(&self) -> String {
         let mut out = String::new();
         let mut in_quote: Option<char> = None;
-        for c in self.msg.chars() {
+        // first line only: the rest is payload (Debug dumps of the values involved)
+        for c in self.msg.lines().next().unwrap_or("").chars() {
             if let Some(q) = in_quote {
                 if c == q {
                     in_quote = None;
